@@ -9,6 +9,9 @@ verus! {
 global size_of usize == 8;
 
 //@include prelude/inc_pwl_core.rs
+//@include prelude/tol_spec.rs
+//@include prelude/wit_core_spec.rs
+//@include prelude/wit_grow_spec.rs
 //@item src/distill/builder.rs | enum Layer | no-debug
 //@include prelude/net_fn_spec.rs
 
